@@ -6,6 +6,8 @@
 """
 from __future__ import annotations
 
+import asyncio
+
 import datetime as dt
 
 from ..common import B, Ctx
@@ -193,6 +195,44 @@ def collect(ctx: Ctx):
             if l._protocol:
                 l._disconnect()
     vloop.run(loop, go2())
+
+    # the reply stream cut in two at EVERY offset (segments at distinct instants, both within the read timeout): one packet, and a complete packet
+    # followed by a second one, with header fields full of start-marker bytes (device id, message id, timestamp = 5A5A...)
+    split = {"stream": b"", "cut": 0}
+
+    def spy3(tr, data):
+        if landev.v2_unwrap(data)["ok"]:
+            c = split["cut"]
+            loop.call_at(loop.time() + 0.01, tr.feed, split["stream"][:c])
+            loop.call_at(loop.time() + 0.3, tr.feed, split["stream"][c:])
+    net.on_bytes = spy3
+
+    async def go3():
+        five = dict(devid=int.from_bytes(b"\x5a" * 8, "little"), ts=b"\x5a" * 8, msgid=b"\x5a" * 4)
+        plain = dict(devid=rng.getrandbits(64), ts=bytes(rng.randrange(256) for _ in range(8)), msgid=bytes(rng.randrange(256) for _ in range(4)))
+        for hdr, tag in ((five, "marker-rich header"), (plain, "random header")):
+            for fl in ([[20]] if ctx.quick and hdr is plain else [[20], [0, 20]] if ctx.quick else [[20], [0, 20], [34, 1, 16]]):
+                frames = [bytes(rng.randrange(256) for _ in range(n)) for n in fl]
+                pk = [landev.v2_wrap(fr, hdr["devid"], hdr["ts"], msgid=hdr["msgid"]) for fr in frames]
+                stream = b"".join(pk)
+                for c in range(1, len(stream)):
+                    split.update(stream=stream, cut=c)
+                    l = LAN("10.0.0.1", 6444, hdr["devid"])
+                    try:
+                        got = list(await l.send(b"\xaa\x01", retries=1))
+                        await asyncio.sleep(0.5)
+                        if len(got) < len(frames) and l._protocol is not None:
+                            split.update(stream=landev.v2_wrap(b"\xbb\x02", hdr["devid"]), cut=1)
+                            got += list(await l.send(b"\xaa\x02", retries=1))[:-1]       # packets completed after the first send returned are met by the next one
+                    except Exception as e:  # noqa: BLE001 - code under test
+                        got = type(e).__name__
+                    for j, fr in enumerate(frames):
+                        res = {"k": "raise", "exc": got} if isinstance(got, str) else ({"k": "frame", "f": B(got[j])} if j < len(got) else {"k": "raise", "exc": "nothing (frame %d of %d not returned)" % (j + 1, len(frames))})
+                        vectors.append({"kind": "decode", "frame": B(fr), "devid": B(hdr["devid"].to_bytes(8, "little")), "p": B(pk[j]), "o": v2_oracle(pk[j]), "res": res,
+                                        "via": f"LAN.send, stream of {len(frames)} packet(s) ({tag}) delivered in two segments cut at {c}", "nresp": len(frames)})
+                    if l._protocol:
+                        l._disconnect()
+    vloop.run(loop, go3())
     return vectors
 
 
@@ -213,7 +253,7 @@ def judge(ctx, vectors, canaries=True):
     n = len(vectors)
     if len({i for i, _ in rej if i >= n}) != len(cans):
         from ..tlc import MachineryError
-        raise MachineryError("Trace_V2 accepted a canary")
+        ctx.defer_machinery("Trace_V2 accepted a canary")
     ctx.extra["canaries_rejected"] = len(cans)
     for i, clause in rej:
         if i < n:
